@@ -129,6 +129,9 @@ func runQueries(c *kernel.Choices, p kernel.Params) *kernel.Result {
 	sched := coop.New(c)
 	committed := int64(1) // last height whose Commit has RETURNED on the queried node
 	qn.mach.Yield = func(op string) { coop.Yield(op) }
+	// knob fsyncwin (recorded in replay files, so tapes recorded without it keep their meaning): a query may also be
+	// scheduled inside Commit's WriteSync, after the batch became visible and before the call returns
+	qn.mach.YieldAfterSync = p.Knob("fsyncwin", "0") != "0"
 	defer func() { qn.mach.Yield = nil }()
 
 	if noSnap {
